@@ -3,6 +3,11 @@
 //!
 //!   e2e <cfg…> <fasta…> <files…> <planted…>  ->  ok <tsv rows…> <pin rows…> <fragment rows…> | err:<class>
 //!
+//! The driver also runs the COMPOSED PIPELINE MODEL (Model/C01Pipeline.lean) on the request and compares its rows with
+//! the TSV rows (search-stage columns). Runs whose database would be too large for the list-based Lean model are
+//! answered `model-na:too-large` by the driver; the generator predicts this with the same two size criteria and tags
+//! every run `model-compared` or `model-na:too-large`, so the evidence shows how many runs were model-compared.
+//!
 //! The request is self-contained (structured configuration, FASTA records, spectra, planted
 //! peptides); the harness renders JSON / FASTA / MGF text from it into a scratch directory outside
 //! /repo and /verif, runs the binary there and removes the directory afterwards.
@@ -85,6 +90,29 @@ pub struct Request {
     pub fasta: Vec<(String, String)>,
     pub files: Vec<Vec<Spec>>,
     pub planted: Vec<Planted>,
+    /// generator-side prediction (not on the wire): the Lean driver will not run the composed pipeline model on
+    /// this run because its list-based database / index build would be too slow (`model-na:too-large`)
+    pub model_too_large: bool,
+}
+
+/// the two size criteria of the driver (`buildCost` > COST_LIMIT, `indexCost` > INDEX_LIMIT in Drv/C01.lean),
+/// computed from the real digests / the real fragment count
+pub const COST_LIMIT: usize = 60_000;
+pub const INDEX_LIMIT: usize = 200_000_000;
+
+pub fn build_cost(digest_lens: &[usize], nvar: usize, max_var: usize) -> usize {
+    digest_lens
+        .iter()
+        .map(|len| {
+            let n = len + 2;
+            let sites = if nvar == 0 { 0 } else { (n * nvar).min(12) };
+            1 + if max_var >= 2 { sites * sites / 2 + sites } else { sites }
+        })
+        .sum()
+}
+
+pub fn index_cost(nfrags: usize, bucket: usize) -> usize {
+    nfrags * (nfrags / bucket.max(1) + 1)
 }
 
 fn enc_tol(o: &mut Out, t: (u8, f32, f32)) {
@@ -207,6 +235,7 @@ pub fn decode(t: &mut Toks) -> Option<Request> {
         fasta,
         files,
         planted,
+        model_too_large: false,
     })
 }
 
@@ -628,10 +657,14 @@ pub fn random_request(rng: &mut Rng, nspec: usize) -> Option<Request> {
     let builder: Builder = serde_json::from_value(database_json(&cfg, "unused")).ok()?;
     let params = builder.make_parameters();
     let fa = Fasta::parse(text, &params.decoy_tag, params.generate_decoys);
+    let digest_lens: Vec<usize> = fa.digest(&params.enzyme.clone().into()).iter().map(|d| d.sequence.len()).collect();
+    let nvar: usize = cfg.vars.iter().map(|(_, ms)| ms.len()).sum();
     let db = std::panic::catch_unwind(|| params.build(fa)).ok()?;
     if db.peptides.is_empty() {
         return None;
     }
+    let model_too_large = build_cost(&digest_lens, nvar, cfg.max_var.max(1)) > COST_LIMIT
+        || index_cost(db.fragments.len(), cfg.bucket) > INDEX_LIMIT;
     let nfiles = 1 + rng.below(3);
     let mut files: Vec<Vec<Spec>> = vec![Vec::new(); nfiles];
     let mut planted = Vec::new();
@@ -730,7 +763,7 @@ pub fn random_request(rng: &mut Rng, nspec: usize) -> Option<Request> {
             f.push(Spec { title: "scan=1".into(), pepmz: 500.0, charge: Some(2), rt_sec: 1.0, peaks: vec![(200.0, 1.0), (300.0, 1.0)] });
         }
     }
-    Some(Request { cfg, fasta, files, planted })
+    Some(Request { cfg, fasta, files, planted, model_too_large })
 }
 
 /// directed shapes that every run must contain (index = which one)
@@ -799,6 +832,8 @@ pub fn gen(rng: &mut Rng, tier: Tier, emit: &mut dyn FnMut(Case)) {
         if let Some(r) = req {
             let c = &r.cfg;
             let case = Case::new(encode(&r))
+                .tag_if(!r.model_too_large, "model-compared")
+                .tag_if(r.model_too_large, "model-na:too-large")
                 .tag_if(c.semi, "semi-enzymatic")
                 .tag_if(!c.cterm, "n-terminal-enzyme")
                 .tag_if(!c.gen_decoys, "fasta-decoys")
